@@ -229,6 +229,63 @@ func c11Judge(c *fw.Ctx, h *scen.History, g []scen.GlobalRule, gitBudget *int, f
 				}
 				return
 			}
+			// (ii-b) latest-only mode, with revocations: the latest entry alone is verified;
+			// a matching block-force-push rule requires it to descend from the previous
+			// *unskipped* state of the ref. In the builder a push descends from every
+			// earlier push back to the most recent force push.
+			if last := v.Entries[len(v.Entries)-1]; last.Kind == "push" && !last.Skipped && last.Valid && last.HasPolicy {
+				pol := polAt[last.Event]
+				prev := -1
+				for j := len(v.Entries) - 2; j >= 0; j-- {
+					if v.Entries[j].Kind == "push" && !v.Entries[j].Skipped {
+						prev = j
+						break
+					}
+					if v.Entries[j].Kind != "push" {
+						prev = -2 // a propagation entry is the previous state: not modelled
+						break
+					}
+				}
+				if pol != nil && prev >= 0 {
+					forced := false
+					for j := prev + 1; j < len(v.Entries); j++ {
+						if hg.Events[v.Entries[j].Event].Force {
+							forced = true
+						}
+					}
+					bfp, thrFail, thrOK := false, false, true
+					for _, gr := range pol.Globals {
+						if !globalMatches(gr, ref) {
+							continue
+						}
+						if gr.Kind == "block-force-push" {
+							bfp = true
+						}
+						if gr.Kind == "threshold" {
+							if authenticated(*pol, last.Signer, last.Approvers) < gr.Threshold {
+								thrFail = true
+							}
+							if len(last.Credited) < gr.Threshold {
+								thrOK = false
+							}
+						}
+					}
+					_, lerr := policy.NewPolicyVerifier(bG).VerifyRef(scen.Ctx, ref)
+					switch {
+					case bfp && forced && lerr == nil:
+						anyViolation = true
+						c.Violation("force-push-not-blocked", map[string]string{"mode": "latest-only"}, fmt.Sprintf("%s: latest entry (event %d) does not descend from the previous unskipped state (event %d) and a block-force-push rule matches, yet latest-only verification accepts", ref, last.Event, v.Entries[prev].Event), cs)
+					case thrFail && lerr == nil:
+						anyViolation = true
+						c.Violation("global-threshold-not-enforced", map[string]string{"mode": "latest-only"}, fmt.Sprintf("%s: latest entry (event %d) carries too few authenticated principals for a matching global threshold rule, yet latest-only verification accepts", ref, last.Event), cs)
+					case !forced && thrOK && !thrFail && lerr != nil:
+						anyViolation = true
+						c.Violation("global-rule-false-reject", map[string]string{"error": strings.SplitN(errClass(lerr), ":", 3)[1], "mode": "latest-only"}, fmt.Sprintf("%s: latest entry (event %d) is authorized, descends from the previous unskipped state and meets every matching global rule, yet latest-only verification fails: %v", ref, last.Event, lerr), cs)
+					default:
+						c.Count("latest-only:agree", 1)
+					}
+				}
+			}
 			// (iii) liveness: P accepts, no skips, every matching threshold met by the
 			// principals credited for the satisfied delegation rule, no force push
 			if v.Accept && errP == nil && !hasSkips && expectRejectG == "" {
